@@ -29,11 +29,12 @@ def main():
     try:
         rc, out = sh(f"git -C {wt} apply {d}/patch.diff")
         if rc != 0:
-            print("PATCH DOES NOT APPLY", out); res["apply"] = False; return res
-        rc1, o1 = sh(f"/venv/bin/python {d}/demo.py", cwd=wt, timeout=900)
-        rc0, o0 = sh(f"/venv/bin/python {d}/demo.py", cwd="/repo", timeout=900)
-        res["demo_patched_fails"] = rc1 != 0
-        res["demo_clean_passes"] = rc0 == 0
+            print("PATCH DOES NOT APPLY", out); res["apply"] = False; print(json.dumps(res)); return res
+        if os.path.exists(f"{d}/demo.py"):
+            rc1, o1 = sh(f"/venv/bin/python {d}/demo.py", cwd=wt, timeout=900)
+            rc0, o0 = sh(f"/venv/bin/python {d}/demo.py", cwd="/repo", timeout=900)
+            res["demo_patched_fails"] = rc1 != 0
+            res["demo_clean_passes"] = rc0 == 0
         if "--tests" in sys.argv:
             t0 = time.time()
             rc, out = sh("/venv/bin/python -m pytest -q -p no:cacheprovider --timeout=900 --continue-on-collection-errors -rf adaptive/tests 2>&1 | grep -E '^FAILED|passed|failed'", cwd=wt, timeout=3000)
